@@ -7,6 +7,10 @@ CLAIMED = {
  'C15': dict(design='4/C15', text='Bounded symbolic check: argument is a 32-bit bit-vector; every feasible path of the compiled isprime (n<2^16), factor/primes/nextprime (small n), '
              'nextpow2/ispow2 (all positive int) is compared by z3 with the number-theoretic definition; the sqrt(n) loop guard is decided for all 32-bit (n,d) by one inductive step.',
              note='Trusts clang -O1 IR == shipped g++ build (differential self-test per run), symir, z3. Functional value for n >= 2^16 only through the guard step (loops of 6542 iterations not unrolled).'),
+ 'C04': dict(design='4/C04', text='Bounded symbolic check of the compiled slice code: slice triples (both triples for slice-to-slice assignment) are 32-bit bit-vectors over the whole int range, '
+             'element values symbolic; per array length n <= 3 (quick) / 5 (thorough) every feasible path is decided by z3 against python slice semantics: throw-iff-stated, count, element identity, '
+             'no other cell written, copy-first behaviour on overlap, copies of slice objects; loads/stores at symbolic offsets carry bounds obligations; UB findings are confirmed under ASan/UBSan.',
+             note='Array length enumerated up to the bound (constructor index arithmetic checked for all n >= 0 except the count quotient); element values modelled as reals; trusts clang IR == g++ build (differential self-test), symir, z3.'),
 }
 ALL = [json.loads(l)['id'] for l in open(os.path.join(V, 'properties.jsonl'))]
 NA_REASON = {}
